@@ -401,6 +401,26 @@ var repairs = []repair{
 	}},
 }
 
+func init() {
+	repairs = append(repairs, repair{"print_parse_fixpoint:url_token_fusion", func(p string, orig []parser.Token) string {
+		// Url.String() is the raw text; a closing parenthesis or comma written directly after it is read as part of the URL
+		for k := range orig {
+			if orig[k].Token != parser.URL {
+				continue
+			}
+			lit := orig[k].Literal
+			n := len([]rune(lit))
+			p = rewriteTopLevel(p, func(rs []rune, i int) (string, int) {
+				if hasPrefixAt(rs, i, lit) && (i == 0 || !isWordRune(rs[i-1])) && i+n < len(rs) && !unicode.IsSpace(rs[i+n]) {
+					return lit + " ", n
+				}
+				return "", 0
+			})
+		}
+		return p
+	}})
+}
+
 func isWordRune(r rune) bool { return r == '_' || unicode.IsLetter(r) || unicode.IsDigit(r) }
 
 // fixpointLaws returns the laws violated by (text, mode), with the printed form. nil = the fixpoint holds or the text
@@ -430,7 +450,7 @@ func fixpointLaws(text string, prep, ansi bool) (laws []string, printed string, 
 	// An unrecognised operator in the original text (token code Uncategorized, which goyacc's driver skips after
 	// letting it decide one step as "end of input") yields trees that violate operator precedence; their printed text
 	// means something else. Attributed to that defect when the text without the operator is unparseable or behaves.
-	if blank := blankUnrecognisedOperators(text); blank != text {
+	if blank := blankUnrecognisedOperators(text, prep, ansi); blank != text {
 		pb, okb := printOnce(blank, prep, ansi)
 		if !okb {
 			return []string{"print_parse_fixpoint:unrecognised_operator_skipped"}, p, detail
@@ -675,9 +695,28 @@ func (ps *parseStream) one(raw string, prep, ansi bool, origin string, evalOK bo
 		return
 	}
 	o.Count("fixpoint.ok")
+	if a, b := tokenSeq(raw, prep, ansi), tokenSeq(printed, prep, ansi); a != b {
+		// counted only: a NUL character (read as end of input), a private-use rune whose code is a token number,
+		// or an empty quoted view name change the token sequence without breaking the fixpoint
+		o.Count("fixpoint.token_sequence_differs")
+	}
 	if evalOK {
 		ps.evalAgree(f, printed)
 	}
+}
+
+// tokenSeq: the token sequence of a text as the parser sees it (kind and upper-cased literal), without statement
+// terminators and unrecognised operators.
+func tokenSeq(text string, prep, ansi bool) string {
+	res := scanImpl(sanitize(text), prep, ansi)
+	var b strings.Builder
+	for _, t := range res.tokens {
+		if t.Token == tokEOF || t.Token == ';' || t.Token == tokUncat {
+			continue
+		}
+		b.WriteString(kindName(t.Token) + ":" + strings.ToUpper(t.Literal) + " ")
+	}
+	return b.String()
 }
 
 func sigOf(kinds []string) string {
@@ -688,20 +727,53 @@ func sigOf(kinds []string) string {
 	return s
 }
 
-// blankUnrecognisedOperators replaces every run of operator runes that is not one of csvq's operators by a space
-// (outside quoted literals and comments). The scanner returns such a run as one token with the negative code
-// Uncategorized, which goyacc's driver takes for "no lookahead yet": the token decides one parsing step as if it were
-// the end of the input and is then dropped.
-func blankUnrecognisedOperators(text string) string {
-	valid := map[string]bool{">": true, "<": true, ">=": true, "<=": true, "<>": true, "!=": true, "==": true, "||": true, ":=": true,
-		"=": true, "!": true, "|": true, ":": true}
-	toks := roughTokens(text)
-	for i, t := range toks {
-		if t != "" && strings.Trim(t, "=<>!|:") == "" && !valid[t] {
-			toks[i] = " "
+// blankUnrecognisedOperators replaces every unrecognised operator of the text (a run of operator runes the real
+// scanner returns with the negative token code Uncategorized) by spaces. goyacc's driver takes a negative code for
+// "no lookahead yet": the token decides one parsing step as if it were the end of the input and is then dropped.
+func blankUnrecognisedOperators(text string, prep, ansi bool) string {
+	src := sanitize(text)
+	res := scanImpl(src, prep, ansi)
+	if !res.uncat {
+		return text
+	}
+	rs := []rune(src)
+	// rune index at which the scanner's position becomes (line, char)
+	at := map[[2]int]int{}
+	line, char := 1, 0
+	for i := 0; i < len(rs); i++ {
+		j := i
+		if rs[i] == '\r' || rs[i] == '\n' {
+			if rs[i] == '\r' && i+1 < len(rs) && rs[i+1] == '\n' {
+				i++
+			}
+			line++
+			char = 0
+		} else {
+			char++
+		}
+		if _, ok := at[[2]int{line, char}]; !ok {
+			at[[2]int{line, char}] = j
 		}
 	}
-	return strings.Join(toks, "")
+	changed := false
+	for _, t := range res.tokens {
+		if t.Token != tokUncat || strings.Trim(t.Literal, "=<>!|:") != "" {
+			continue
+		}
+		i, ok := at[[2]int{t.Line, t.Char}]
+		n := utf8.RuneCountInString(t.Literal)
+		if !ok || i+n > len(rs) || string(rs[i:i+n]) != t.Literal {
+			continue
+		}
+		for k := i; k < i+n; k++ {
+			rs[k] = ' '
+		}
+		changed = true
+	}
+	if !changed {
+		return text
+	}
+	return string(rs)
 }
 
 // evalLaw: a constant query and its printed form must evaluate to the same header and cells, or fail with the same
@@ -717,7 +789,7 @@ func (ps *parseStream) evalLaw(text string, ansi bool) (law, printed, detail str
 		return "", p, a
 	}
 	detail = "original: " + a + "  printed: " + b
-	if blank := blankUnrecognisedOperators(text); blank != text {
+	if blank := blankUnrecognisedOperators(text, false, ansi); blank != text {
 		// the original text contains an unrecognised operator; without it the text evaluates like the printed form
 		// (or does not parse at all)
 		if eb := ps.eval(blank, ansi); eb == b || eb == "E:parse" {
@@ -780,7 +852,7 @@ func (ps *parseStream) witnesses() {
 		"select - -1", "select -(-1)", "select - - 1", "select 1 - -1", "select -1", "select + -1", "select - +1", "select -a", "select - -a",
 		"select ! !true", "select !true", "select not not true",
 		"select first_value(a) ignore nulls over (order by b)", "select lag(a) ignore nulls over (order by b)", "select first_value(a) over (order by b)",
-		"select `a b`(1)", "select `abc`(1)",
+		"select `a b`(1)", "select `abc`(1)", "select a from (select a from https://example.com/t.csv )", "select a from https://example.com/t.csv",
 		"select 'it''s', \"q\", `a b`, 'a\\'b', 'x\ny'", "select 1; select 2", "select", "", "select 'abc", "select 1 /* c", "select !! true", "select ",
 	} {
 		for m := 0; m < 4; m++ {
